@@ -2373,6 +2373,24 @@ impl Property for C13 {
                     scn.events.push(Ev::PollOp { sel: 32768 });
                     o.class("requests-queued-behind-the-user-disconnect");
                 }
+                // the caller of disconnect() gives up once its request is submitted (a lost race in a
+                // select!, "fire and exit"): what run() does depends on the DISCONNECT, not on the caller
+                let abandoned = h % 7 == 4 && matches!(cause, Cause::UserDisconnect(_));
+                if abandoned {
+                    if cfg.auto_settle {
+                        cfg.auto_settle = false;
+                        let n = scn.events.len() - 1;
+                        let mut evs: Vec<Ev> = scn.events.drain(..n).flat_map(|e| [e, Ev::Settle]).collect();
+                        evs.append(&mut scn.events);
+                        scn.events = evs;
+                    }
+                    scn.events.push(Ev::PollOp { sel: 65535 }); // the DISCONNECT is submitted
+                    if h % 2 == 0 {
+                        scn.events.push(Ev::PollCtx); // .. and perhaps being written
+                    }
+                    scn.events.push(Ev::DropOp { sel: 65535 });
+                    o.class("disconnect-future-dropped-after-submission");
+                }
                 scn.events.push(Ev::Settle);
                 let out = run(&scn, &cfg);
                 o.nontrivial = out.stats.cause_with_outstanding || out.stats.cause_with_stream || out.stats.oversized_disconnect;
